@@ -345,6 +345,33 @@ theorem run_units_paired (sh : Shape) (first : Bool) (u : UnitSpec) (hu : u ∈ 
   subst hf
   exact resumed_runUnits sh u hu
 
+/-! ## a resume whose restore is refused -/
+
+/-- **restore_failure_reports_start_once.** A graph execution that fails while a checkpoint is
+    being restored — wherever the failing step lies relative to the place where the body calls
+    `onGraphStart` — reports exactly: start once, then error.  (Source facts: the deferred block, its
+    `if !haveOnStart { onGraphStart }`, and every `onGraphStart` of the body being followed at once
+    by `haveOnStart = true`.) -/
+theorem restore_failure_reports_start_once (isStream startedBefore : Bool) :
+    restoreFailCalls FactsC10.startSetsFlag FactsC10.runHasDeferredBlock FactsC10.deferStartsIfMissing
+      isStream startedBefore = [startT isStream, Timing.error] := by
+  have h1 : FactsC10.startSetsFlag = true := by decide
+  have h2 : FactsC10.runHasDeferredBlock = true := by decide
+  have h3 : FactsC10.deferStartsIfMissing = true := by decide
+  rw [h1, h2, h3]
+  cases startedBefore <;> rfl
+
+/-- **refused_resume_units_paired.** In a resumed call whose restore is refused — by the
+    caller's state modifier for the called graph or for a nested graph that interrupted — every
+    unit that executes (the refused graph: one start, one error; for a nested refusal also the
+    called graph and the other re-run nodes, tools nodes and tool calls) has the program "one
+    start, then one finishing callback"; the refused graph's is `[start, error]`. -/
+theorem refused_resume_units_paired (sh : Shape) (w : ResumeFail) (u : UnitSpec) (hu : u ∈ failedResumeUnits sh w) :
+    (∃ s e, kindProg genCF u.kind = [s, e] ∧ s.isStart = true ∧ e.isStart = false) ∧
+    kindProg genCF (.graph sh.stream .earlyErr) = [startT sh.stream, Timing.error] :=
+  ⟨paired_failedResumeUnits (cf := genCF) (by decide) (by decide) (by decide) sh w u hu,
+   graph_callbacks_once sh.stream .earlyErr⟩
+
 /-! ## run info of a tool call -/
 
 /-- **tool_call_run_info_own.** Every callback delivered by a unit of a compose run — in
@@ -813,6 +840,17 @@ theorem node_handlers_hear_detached_work_when_init_keeps_ctx :
       [("n:A|Li|Lambda", 2, .start), ("n:A|Li|Lambda", 1, .start), ("n:A|Li|Lambda", 1, .end_), ("n:A|Li|Lambda", 2, .end_)] ∧
     (⟨5, "ig:A.1||Graph", h 2, .start⟩ : LogEv) ∈ log ∧ (⟨6, "is:A.1|Li|Lambda", h 2, .start⟩ : LogEv) ∈ log := by
   decide
+
+/-- **A start callback fired in the body before the restore, with the flag set only after it**
+    (`startSetsFlag = false`): a refused restore makes the deferred block fire the start again —
+    one execution reports start, start, error. -/
+theorem restore_failure_starts_twice_when_flag_set_late (isStream : Bool) :
+    restoreFailCalls false true true isStream true = [startT isStream, startT isStream, Timing.error] := rfl
+
+/-- non-vacuity: a lambda and a nested graph interrupt; the resume is refused for the nested graph -/
+example : (failedResumeUnits ⟨false, [.inner (.lam "A" .i false true), .sub "S" [.lam "X" .i false true]]⟩ (.sub "S")).map
+      (fun u => (u.info, kindProg ⟨true, true, true, true⟩ u.kind)) =
+    [("G||Graph", [.start, .error]), ("n:A|Li|Lambda", [.start, .end_]), ("n:S||Graph", [.start, .error])] := by decide
 
 /-- without the deferred block a failing run never reports its end;
     with a deferred block that does not check `haveOnStart` an early error return has no start -/
